@@ -220,6 +220,71 @@ def rule_wr_fin(cx, rep, port):
             rep.decide(rng2[1] == 0, _key(c, 'finish') + ' on failure', fins2[0].ast if fins2 else fd, 'no path that leaves finish() with an exception has called subwriter.finish()', 'subwriter.finish() is also called on a path that leaves finish() with an exception (try/finally): after a failed run the user\'s writer is finished as if the output were complete')
 
 
+def _top_model(cx, port, p, mod, c):
+    """the TOP writer evaluated for bounds 0, 1, 2 (JS: also null = no bound) on four records with an accepting downstream writer, and for
+    bound 2 with a downstream writer that refuses the first record: {obligation: problem or None} - None when outside the interpreter"""
+    from .. import absexec as AX
+    ms = roles.methods(c)
+    init, wr = ms.get('__init__'), ms.get('write')
+    if init is None or wr is None or len(init.args.args) != 3:
+        return None
+    res = {'refusal': None, 'verdict': None, 'order': None, 'count': None}
+    n = 0
+    try:
+        for bound in ([0, 1, 2] + ([None] if port == 'js' else [])):
+            for refuse_first in ((False, True) if bound == 2 else (False,)):
+                selfv, sub = AX.Abs('Self'), AX.Abs('Sub')
+                recs = [AX.Abs('Rec', id='r%d' % i) for i in range(4)]
+                forwarded = []
+
+                def on_call(ex, node, fname, recv, args):
+                    short = node.func.attr if isinstance(node.func, ast.Attribute) else fname
+                    if recv is sub and short == 'write':
+                        forwarded.append(args[0] if len(args) == 1 else None)
+                        return not (refuse_first and len(forwarded) == 1)
+                    return AX.NOT_HANDLED
+                ex = AX.Explorer(p, mod, on_call=on_call, max_choices=1)
+                ex.cls = c.name
+                ex._script, ex._pos, ex.steps, ex.depth = [], 0, 0, 0
+                ex.run = AX.Run()
+                ex.call_fd(init, [selfv, sub, bound])
+                n += 1
+                taken = 0
+                for i, r in enumerate(recs):
+                    before = len(forwarded)
+                    got = ex.call_fd(wr, [selfv, r])
+                    if isinstance(got, AX.Abs):
+                        return None
+                    what = 'TOP {}: write() of record {}'.format('without bound' if bound is None else bound, i + 1)
+                    if refuse_first:
+                        # python: the receiver's refusal is handed on and the record is not counted; JS sinks never refuse (allow-listed)
+                        if port == 'py' and i == 0 and (got is not False or len(forwarded) != 1):
+                            res['verdict'] = res['verdict'] or '{}: the next writer refuses the record but write() returns {!r}'.format(what, got)
+                        if port == 'py' and i > 0 and i <= 2 and len(forwarded) != before + 1:
+                            res['count'] = res['count'] or '{}: a record that the next writer refused was counted as emitted (the bound is reached one record early)'.format(what)
+                        continue
+                    if bound is None or taken < bound:
+                        if len(forwarded) != before + 1 or forwarded[-1] is not r:
+                            res['refusal'] = res['refusal'] or '{}: the record is within the bound but is not forwarded (once, unchanged)'.format(what)
+                            break
+                        taken += 1
+                        if got is not True:
+                            res['verdict'] = res['verdict'] or '{}: the record was forwarded and accepted but write() returns {!r}: the caller is told to stop together with a permitted record'.format(what, got)
+                    else:
+                        if len(forwarded) != before:
+                            res['order' if taken == bound else 'refusal'] = res['refusal'] or '{}: the bound is reached but the record is still forwarded'.format(what)
+                            break
+                        if got is not False:
+                            res['refusal'] = res['refusal'] or '{}: the bound is reached but write() returns {!r} instead of False'.format(what, got)
+    except (Undecided, AX.Cut, AX._NeedChoice, AX.Raised, KeyError, IndexError, TypeError, AttributeError) as e_:
+        import os
+        if os.environ.get('RBQL_VERIF_DEBUG'):
+            print('top model gave up:', type(e_).__name__, e_)
+        return None
+    res['__n__'] = n
+    return res
+
+
 def rule_wr_top(cx, rep, port):
     p, mod, chain, sinks = _roles(cx, port)
     tops = [c for c in chain if 'top_count' in roles.self_attrs_assigned(roles.methods(c)['__init__'])]
@@ -227,6 +292,32 @@ def rule_wr_top(cx, rep, port):
         raise Undecided('TOP writer (chain writer with a top_count attribute) not found', (p.files[mod], 0))
     c = tops[0]
     fd = roles.methods(c)['write']
+    mres = _top_model(cx, port, p, mod, c)
+    if mres is not None:
+        good = {'refusal': 'forwards exactly the first N records and refuses (False, nothing forwarded) from then on', 'verdict': 'a forwarded record is reported as taken (or with the receiver\'s verdict)',
+                'order': 'the bound is tested before forwarding', 'count': 'only forwarded' + (' and accepted' if port == 'py' else '') + ' records count towards the bound'}
+        for k_ in ('refusal', 'verdict', 'order', 'count'):
+            rep.decide(mres[k_] is None, _key(c, 'write') + ' ' + k_, fd, good[k_] + ' ({} scenarios evaluated)'.format(mres['__n__']), mres[k_] or '')
+        if port == 'js' and getattr(fd, 'is_async', False):
+            # the model runs one write at a time; an asynchronous write() that counts the record *before* the downstream write has settled
+            # lets writes that are in flight together (an UNNEST list written with Promise.all) pass the bound test with a stale count
+            g = cfgmod.CFG(fd)
+            inits = [n.targets[0].attr for n in walk_no_nested(roles.methods(c)['__init__']) if isinstance(n, ast.Assign) and isinstance(n.targets[0], ast.Attribute) and isinstance(n.value, ast.Constant) and n.value.value == 0 and dotted(n.targets[0].value) == 'self']
+            wrs = [n for n in g.nodes if n.kind in ('stmt', 'test') and cfgmod.node_contains(n, lambda x: isinstance(x, ast.Call) and call_name(x) == 'self.subwriter.write')]
+            incs = [n for n in g.nodes if n.kind == 'stmt' and any(_attr_increment(n.ast, a_) is not None for a_ in inits)]
+            if len(wrs) == 1 and len(incs) == 1:
+                dom = g.dominators()
+                # ... which matters only when the engine lets writes overlap: a Promise.all / allSettled over calls that reach the writer
+                overlap = [x for x in ast.walk(p.modules[mod]) if isinstance(x, ast.Call) and (dotted(x.func) or '') in ('Promise.all', 'Promise.allSettled', 'Promise.race')
+                           and any(isinstance(y, ast.Call) and ((call_name(y) or '').endswith('.write') or (call_name(y) or '').split('.')[-1] in ('select_simple', 'select_unnested', 'select_aggregated')) for a_ in x.args for y in ast.walk(getattr(a_, 'js_function_ref', a_)))]
+                overlap += [x for x in ast.walk(p.modules[mod]) if isinstance(x, ast.Call) and isinstance(x.func, ast.Attribute) and x.func.attr in ('map', 'forEach') and dotted(getattr(getattr(x, 'parent', None), 'func', None) or ast.Name(id='', ctx=ast.Load())) in ('Promise.all', 'Promise.allSettled')]
+                rep.decide(g.dominates(wrs[0], incs[0], dom) or not overlap, _key(c, 'write') + ' count order', incs[0].ast, 'the record is counted after the downstream write has settled', 'the record is counted before the downstream write is awaited: writes in flight together see a stale count and the bound can be exceeded or reached early')
+        return
+    with rep.as_fallback('TopWriter is outside the abstract interpreter'):
+        _rule_wr_top_shape(cx, rep, port, p, mod, c, fd)
+
+
+def _rule_wr_top_shape(cx, rep, port, p, mod, c, fd):
     g = cfgmod.CFG(fd)
     counter = None
     init = roles.methods(c)['__init__']
@@ -573,6 +664,90 @@ def _rule_wr_uniq_shape(cx, rep, port, p, mod, c, fd):
         rep.holds(_key(c, 'write'), t.ast, 'forward iff the immutable image of the record was not yet in the seen-set (insert-if-absent); duplicates return True')
 
 
+def _ucnt_model(cx, port, p, mod, c):
+    """the DISTINCT COUNT writer evaluated on the records A, B, A', B', A'' (equal content, different objects) and an empty record, then
+    finish(), with a downstream writer that accepts everything / refuses the first record: {obligation: problem or None}; None when
+    outside the abstract interpreter"""
+    import json as _json
+    from .. import absexec as AX
+    ms = roles.methods(c)
+    init, wr, fin = ms.get('__init__'), ms.get('write'), ms.get('finish')
+    if init is None or wr is None or fin is None or len(init.args.args) < 2 or len(wr.args.args) != 2:
+        return None
+    res = {'buffering': None, 'counting': None, 'key': None, 'order': None, 'prefix': None}
+    n = 0
+    # further constructor parameters (a limit, a flag ...) are tried with "absent" and with 1
+    import itertools
+    extra_sets = list(itertools.product(*[[None, 1] for _ in init.args.args[2:]]))[:4]
+    scenarios = [(False, (['x', '1'], ['x', '2'], ['x', '1'], ['x', '2'], ['x', '1'], [], ['x']), [[3, 'x', '1'], [2, 'x', '2'], [1], [1, 'x']]),
+                 (True, (['x', '1'], ['x', '2'], ['x', '1']), None),
+                 (False, ([5], [3], [5], ['5']), [[2, 5], [1, 3], [1, '5']])]        # lone numeric columns (what numbers do as keys of the buffer)
+    try:
+        for (refuse_first, seq, want), extra in itertools.product(scenarios, extra_sets):
+            selfv, sub = AX.Abs('Self'), AX.Abs('Sub')
+            forwarded, events = [], []
+
+            def on_call(ex, node, fname, recv, args):
+                short = node.func.attr if isinstance(node.func, ast.Attribute) else fname
+                if recv is sub and short == 'write':
+                    forwarded.append(list(args[0]) if len(args) == 1 and isinstance(args[0], (list, tuple)) else args)
+                    events.append('write')
+                    return not (refuse_first and len(forwarded) == 1)
+                if recv is sub and short == 'finish':
+                    events.append('finish')
+                    return None
+                if fname == 'JSON.stringify' and len(args) == 1 and isinstance(args[0], (list, tuple)) and all(isinstance(x, (str, int)) for x in args[0]):
+                    return _json.dumps(list(args[0]))
+                if fname == 'JSON.parse' and len(args) == 1 and isinstance(args[0], str):
+                    return _json.loads(args[0])
+                if short == 'iteritems6' and len(args) == 1 and isinstance(args[0], dict):
+                    return list(args[0].items())
+                if fname == 'OrderedDict' and not args:
+                    return {}
+                return AX.NOT_HANDLED
+            ex = AX.Explorer(p, mod, on_call=on_call, max_choices=1)
+            ex.cls = c.name
+            ex._script, ex._pos, ex.steps, ex.depth = [], 0, 0, 0
+            ex.run = AX.Run()
+            ex.call_fd(init, [selfv, sub] + list(extra))
+            n += 1
+            for i, r in enumerate(seq):
+                got = ex.call_fd(wr, [selfv, list(r)])
+                if events:
+                    res['buffering'] = res['buffering'] or 'write() of record {} forwards / finishes downstream: the counting writer must only buffer until finish()'.format(i + 1)
+                if got is not True:
+                    res['buffering'] = res['buffering'] or 'write() of record {} returns {!r} instead of True{}'.format(i + 1, got, ' (constructor arguments {})'.format(list(extra)) if any(x is not None for x in extra) else '')
+            if res['buffering']:
+                break
+            ex.steps, ex.depth = 0, 0
+            ex.call_fd(fin, [selfv])
+            if events.count('finish') != 1 or events[-1] != 'finish':
+                res['order'] = res['order'] or 'finish() does not finish the next writer exactly once, after the last record (events: {})'.format(' '.join(events))
+                continue
+            if refuse_first:
+                if len(forwarded) != 1:
+                    res['order'] = res['order'] or 'the next writer refused the first counted record but {} record(s) were written to it'.format(len(forwarded))
+                continue
+            if forwarded == want:
+                continue
+            got_recs = [f_[1:] if isinstance(f_, list) and f_ and isinstance(f_[0], int) else f_ for f_ in forwarded]
+            if sorted(map(repr, forwarded)) == sorted(map(repr, want)):
+                res['order'] = res['order'] or 'counted records are emitted in the order {} instead of first-occurrence order {}'.format(forwarded, want)
+            elif [f_[1:] for f_ in want] == got_recs:
+                res['counting'] = res['counting'] or 'after the records {} the multiplicities emitted are {} instead of {}'.format([','.join(map(str, x)) for x in seq], [f_[0] for f_ in forwarded], [f_[0] for f_ in want])
+            elif all(isinstance(f_, list) and f_ and isinstance(f_[-1], int) for f_ in forwarded) or any(isinstance(f_, list) and not (f_ and isinstance(f_[0], int)) for f_ in forwarded):
+                res['prefix'] = res['prefix'] or 'the multiplicity is not emitted as the first field: {}'.format(forwarded)
+            else:
+                res['key'] = res['key'] or 'after the records {} the counting writer emits {} instead of {}: records are not grouped by their whole content'.format([','.join(map(str, x)) for x in seq], forwarded, want)
+    except (Undecided, AX.Cut, AX._NeedChoice, AX.Raised, KeyError, IndexError, TypeError, AttributeError, ValueError) as e_:
+        import os
+        if os.environ.get('RBQL_VERIF_DEBUG'):
+            print('ucnt model gave up:', type(e_).__name__, e_)
+        return None
+    res['__n__'] = n
+    return res
+
+
 def rule_wr_ucnt(cx, rep, port):
     p, mod, chain, sinks = _roles(cx, port)
     cands = [c for c in chain if 'records' in roles.self_attrs_assigned(roles.methods(c)['__init__'])]
@@ -581,6 +756,22 @@ def rule_wr_ucnt(cx, rep, port):
     c = cands[0]
     ms = roles.methods(c)
     init = ms['__init__']
+    mres = _ucnt_model(cx, port, p, mod, c)
+    if mres is not None:
+        good = {'buffering': 'write() only buffers and returns True', 'counting': 'multiplicity starts at 1 and grows by 1 per repeated record', 'key': 'records are grouped by their whole content',
+                'order': 'finish() emits in first-occurrence order, stops when refused, then finishes the next writer once', 'prefix': 'the multiplicity is put in front of the record'}
+        wr_, fin_ = ms['write'], ms['finish']
+        rep.decide(mres['order'] is None or 'first-occurrence' not in (mres['order'] or ''), _key(c, '__init__'), init, 'the buffer keeps first-occurrence order', mres['order'] or '')
+        for k_, where in (('buffering', wr_), ('counting', wr_), ('key', wr_)):
+            rep.decide(mres[k_] is None, _key(c, 'write') + ' ' + k_, where, good[k_] + ' (7 records, then finish; evaluated with an accepting and a refusing next writer)', mres[k_] or '')
+        for k_, where in (('order', fin_), ('prefix', fin_)):
+            rep.decide(mres[k_] is None, _key(c, 'finish') + ' ' + k_, where, good[k_], mres[k_] or '')
+        return
+    with rep.as_fallback('UniqCountWriter is outside the abstract interpreter'):
+        _rule_wr_ucnt_shape(cx, rep, port, p, mod, c, ms, init)
+
+
+def _rule_wr_ucnt_shape(cx, rep, port, p, mod, c, ms, init):
     ctor = None
     for n in walk_no_nested(init):
         if isinstance(n, ast.Assign) and dotted(n.targets[0]) == 'self.records':
